@@ -23,11 +23,26 @@ const (
 )
 
 // Options returns execution options for engine e with fresh limit gauges.
+// Atree validation is off: it re-validates the whole container on every
+// mutation, which makes a metered loop of n inserts cost O(n^2) (a mutated
+// harvested loop ran for > 15 min); ValidatingOptions switches it on under a
+// much smaller computation limit.
 func Options(e host.Engine, record bool) host.Options {
 	g := host.NewGauge(record)
 	g.CompLimit = CompLimit
 	g.MemLimit = MemLimit
-	return host.Options{Engine: e, Gauge: g, StackDepthLimit: InterpStackDepth}
+	return host.Options{Engine: e, Gauge: g, StackDepthLimit: InterpStackDepth, NoAtreeValidation: true}
+}
+
+// ValidatingCompLimit bounds runs with atree/storage validation enabled.
+const ValidatingCompLimit = 15_000
+
+// ValidatingOptions is Options with atree and storage-health validation on.
+func ValidatingOptions(e host.Engine) host.Options {
+	o := Options(e, false)
+	o.Gauge.CompLimit = ValidatingCompLimit
+	o.NoAtreeValidation = false
+	return o
 }
 
 // DeployTx is the transaction text that deploys contract `name`.
@@ -53,13 +68,22 @@ func RunStep(h *host.Host, s prog.Step, o host.Options) host.Result {
 // Run executes hist on a fork of base (nil: fresh host) with fresh bounded
 // options per step. limited[i] reports that step i hit a metering limit.
 func Run(base *host.Host, hist prog.History, e host.Engine, record bool) (results []host.Result, limited []bool, gauges []*host.Gauge, final *host.Host) {
+	return run(base, hist, func() host.Options { return Options(e, record) })
+}
+
+// RunValidating is Run with ValidatingOptions (atree/storage validation on, small computation limit).
+func RunValidating(base *host.Host, hist prog.History, e host.Engine) (results []host.Result, limited []bool, gauges []*host.Gauge, final *host.Host) {
+	return run(base, hist, func() host.Options { return ValidatingOptions(e) })
+}
+
+func run(base *host.Host, hist prog.History, opts func() host.Options) (results []host.Result, limited []bool, gauges []*host.Gauge, final *host.Host) {
 	if base != nil {
 		final = base.Fork()
 	} else {
 		final = host.New()
 	}
 	for _, s := range hist.Steps {
-		o := Options(e, record)
+		o := opts()
 		r := RunStep(final, s, o)
 		results = append(results, r)
 		limited = append(limited, o.Gauge.LimitHit())
